@@ -21,3 +21,27 @@ Proof. exact move_refines. Qed.
 Theorem C10_remove_frame : forall d r d' i x,
   inner_remove d r = Some (d', i) -> x <> r -> lookup x (d_insts d') = lookup x (d_insts d).
 Proof. exact inner_remove_frame. Qed.
+
+(* "children in builder order": what an InstanceBuilder holds after any script over its construction
+   API (with_child/add_child, with_children/add_children on a builder that may already have children,
+   with_property/add_property, with_properties/add_properties, names, classes, referents). *)
+From RbxVerif Require Import Builder BuilderFacts.
+
+Theorem C10_builder_children_in_script_order : forall ops b,
+  b_kids (brun b ops) = b_kids b ++ flat_map op_kids ops.
+Proof. exact brun_kids. Qed.
+Theorem C10_builder_props_in_script_order : forall ops b,
+  b_props (brun b ops) = b_props b ++ flat_map op_props ops.
+Proof. exact brun_props. Qed.
+Theorem C10_builder_grouping_irrelevant : forall b ops ops',
+  flat_map op_kids ops = flat_map op_kids ops' ->
+  flat_map op_props ops = flat_map op_props ops' ->
+  last_some (List.map op_name ops) (b_name b) = last_some (List.map op_name ops') (b_name b) ->
+  last_some (List.map op_class ops) (b_class b) = last_some (List.map op_class ops') (b_class b) ->
+  last_some (List.map op_ref ops) (b_ref b) = last_some (List.map op_ref ops') (b_ref b) ->
+  brun b ops = brun b ops'.
+Proof. exact brun_grouping_irrelevant. Qed.
+Theorem C10_builder_script_builds : forall r c nm0 n (pgroups : list (list (N * pval))) (kgroups : list (list btree)),
+  brun (bnew r c nm0) (OName n :: List.map OProps pgroups ++ List.map OChildren kgroups)
+  = BNode r n c (concat pgroups) (concat kgroups).
+Proof. exact brun_builds. Qed.
